@@ -131,6 +131,20 @@ let handle = function
                     (match cu.c_pend with PNone -> 0 | PHead -> 1 | PTail -> -1)
         | Some cc -> Printf.sprintf "cn pos=%d skip=%d pnum=%d db=%d" (int_of_nat cu.c_pos) (int_of_z cu.c_skip)
                        (int_of_nat cc.cc_pnum) (match cc.cc_node with CnNode _ -> 0 | _ -> 1)))
+  | ["skiplower"; s; k; c; top; lv] ->
+    (* the multi-level search of KV/Skip.v on the model's chain with the levels the implementation reports *)
+    let d = getdb (int_of_string s) in
+    (match eff_key d.d_mode (bytes_of_hex k) (z_of_string c) with
+     | (ROk, ek) ->
+       let lvs = if lv = "-" then [] else List.map int_of_string (String.split_on_char ',' lv) in
+       if List.length lvs <> List.length d.d_chain then "LEVELS?" else
+       let ln = List.map2 (fun (id, r) l -> ((id, nat_of_int l), r)) d.d_chain lvs in
+       (match skip_lower (cmp_of d.d_mode) (nat_of_int (int_of_string top)) ln ek with
+        | None -> "OK idx=-1"
+        | Some ((id, _), _) ->
+          let rec find i = function [] -> -2 | (j, _) :: r -> if j = id then i else find (i + 1) r in
+          Printf.sprintf "OK idx=%d" (find 0 d.d_chain))
+     | (e, _) -> rcn e)
   | ["dump"; s] -> dump_str (getdb (int_of_string s)) false
   | ["rdump"; s] -> dump_str (getdb (int_of_string s)) true
   | ["struct"; s] ->
